@@ -620,6 +620,10 @@ func (z *E6) SetBytes(e []byte) error {
 
 // IsInSubGroup ensures GT/E6 is in correct subgroup
 func (z *E6) IsInSubGroup() bool {
+	// 0 is not a unit: it satisfies every power relation checked below
+	if z.IsZero() {
+		return false
+	}
 	var tmp, a, _a, b E6
 	var t [6]E6
 
